@@ -9,8 +9,9 @@ python3 - <<'PY'
 import sys
 sys.path.insert(0, "tools")
 import theories
+import vlib
+vlib.cargo_build(["rt-driver"])
 theories.prepare()
 theories.prepare_component_driver()
 PY
-(cd harness && cargo build --offline -q -p eqlogc -p rt-driver -p model-driver -p comp-driver)
 echo setup done
